@@ -266,7 +266,7 @@ Qed.
    on_probe_failed is in q or at most min_ss; no live probe is left *)
 Definition restart_post ti tm p (q : Z -> Prop) (s s' : vsock) : Prop :=
   v_restart s' = true /\ strict = false /\
-  exists zp z, q zp /\ (q z \/ z <= min_ss (v_ss s)) /\
+  exists zp z, q zp /\ 0 <= z /\ (q z \/ z <= min_ss (v_ss s)) /\
     v_ss s' = disarm_cooldown (on_probe_failed (v_ss s) z) /\
     vs_x ti tm p (fun _ => False) s'.
 
@@ -295,6 +295,9 @@ Proof.
   destruct tl as [[sq size]|]; [|cbn [spx]; left; exact HT].
   destruct (Hsrc _ _ eq_refl) as (f & Hin & ->). unfold new_items in Hin.
   pose proof (iter_size_ok q _ _ _ _ (proj1 (proj2 Hx)) Hin) as Hz.
+  assert (Hz0 : 0 <= sg_size (fs_seg f)).
+  { pose proof (iter_fs_ok ti tm p s (Some (wadd16 (v_last_sent_seq_nr s) 1)) (proj1 Hx)) as Hall.
+    rewrite Forall_forall in Hall. apply (Hall f Hin). }
   destruct HT as (Hx1 & Hef1 & (Htq & Hr1 & Hss1 & Hnow1 & Henv1)).
   destruct (pop_mtu_probe (v_segs s1) sq) as [segs' popped] eqn:Epop.
   destruct popped; cbn [spx allowed].
@@ -312,7 +315,7 @@ Proof.
     split.
     { destruct Haux1 as (_ & _ & Hlp & _). rewrite Eg in Hlp. apply lp_app in Hlp. destruct Hlp as [_ Hlp].
       inversion Hlp; subst. auto. }
-    split; [exact Hz|]. split; [rewrite Hss1; reflexivity|].
+    split; [exact Hz0|]. split; [exact Hz|]. split; [rewrite Hss1; reflexivity|].
     split.
     + eapply inv_update; [exact Hinv1|..]; vsimpl; try reflexivity; try assumption; auto.
       apply disarm_ss_ok. apply failed_ss_ok. exact I6.
